@@ -257,6 +257,17 @@ func c19Archive(c *Ctx, r *RNG, a, b, d Arch) {
 	emitCli(c, "inspect", VL{VN(1)}, one, VL{}, false)
 	emitCli(c, "inspect", VL{VN(0)}, one, VL{}, false)
 	emitCli(c, "verify", VL{}, one, VL{}, false)
+	// the same archive through a pipe on standard input
+	emitCli(c, "list", VL{VN(1), VN(uint64(r.Intn(2)))}, one, ex, nt)
+	if r.Chance(30) {
+		emitCli(c, "list", VL{VN(0), VN(1)}, one, ex, nt) // --verbose from a file
+	}
+	if r.Chance(50) {
+		emitCli(c, "root", VL{VN(1)}, one, ex, nt)
+	}
+	if r.Chance(30) {
+		emitCli(c, "inspect", VL{VN(uint64(r.Intn(2))), VN(1)}, one, VL{}, false)
+	}
 	// car index
 	for _, k := range []uint64{1, 2, 3} {
 		emitCli(c, "index", VL{VN(k), VN(2)}, c19Pre(c, r, one, len(a.file)), ex, nt)
@@ -277,7 +288,7 @@ func c19Archive(c *Ctx, r *RNG, a, b, d Arch) {
 		emitCli(c, "indexcreate", VL{VN(uint64(pick(r, []int{4, 5})))}, one, VL{}, false)
 	}
 	if idx, ok := o.(VL)[1].(VB); ok {
-		emitCli(c, "detachlist", VL{}, VL{idx}, VL{a.desc(), VN(0)}, nt)
+		emitCli(c, "detachlist", VL{VN(uint64(r.Intn(2)))}, VL{idx}, VL{a.desc(), VN(0)}, nt)
 	}
 	if a.idxKind != 0 {
 		od := emitCli(c, "detach", VL{}, c19Pre(c, r, one, len(a.file)), VL{a.desc(), VN(a.idxKind), vbool(a.storeID)}, nt)
@@ -715,6 +726,89 @@ func c19OutIndep(c *Ctx, r *RNG, a Arch) {
 	_ = a
 }
 
+// c19ListUnixfs: a generated UnixFS tree (files as raw leaves / dag-pb files / chunked files, symlinks,
+// basic and HAMT directories, nesting, optionally a missing block), built into a CARv1 by the C17/C18
+// DAG assembler (k_cli.go dagStore), listed with `car list --unixfs` / `--unixfs-blocks`.
+func c19ListUnixfs(c *Ctx, r *RNG) {
+	var gen func(depth int) Val
+	nameOf := func(i int) []byte {
+		return []byte(pick(r, []string{"a", "file", "x.txt", "Dir", "ünï", "z_9"}) + string(rune('0'+i)))
+	}
+	gen = func(depth int) Val {
+		switch k := r.Intn(10); {
+		case depth > 0 && k < 4:
+			n := r.Intn(4)
+			ents := VL{}
+			for i := 0; i < n; i++ {
+				ents = append(ents, VL{VB(nameOf(i)), gen(depth - 1), VN(1)})
+			}
+			form := uint64(0)
+			if r.Chance(30) && n > 0 {
+				form = 1
+			}
+			return VL{VT("d"), ents, VN(form), VN(0)}
+		case k == 4:
+			return VL{VT("l"), VB([]byte("target/" + string(rune('a'+r.Intn(26))))), VN(0)}
+		case k == 5 && r.Chance(25):
+			c.Count("listunixfs:missing-block")
+			return VL{VT("m"), VB(r.Bytes(4))}
+		default:
+			form := pick(r, []int{0, 0, 1, 2, 3, 4})
+			return VL{VT("f"), VB(r.Bytes(r.Intn(120))), VN(uint64(form)), VN(uint64(1 + r.Intn(3))), VN(0)}
+		}
+	}
+	nroots := 1
+	if r.Chance(20) {
+		nroots = 2
+	}
+	vals, views := VL{}, VL{}
+	for i := 0; i < nroots; i++ {
+		n := 1 + r.Intn(4)
+		ents := VL{}
+		for j := 0; j < n; j++ {
+			ents = append(ents, VL{VB(nameOf(j)), gen(2), VN(1)})
+		}
+		var v Val = VL{VT("d"), ents, VN(uint64(pick(r, []int{0, 0, 1}))), VN(0)}
+		if r.Chance(12) {
+			v = VL{VT("f"), VB(r.Bytes(20)), VN(0), VN(1), VN(0)} // a raw root: nothing is listed
+			views = append(views, VL{VT("raw")})
+		} else {
+			views = append(views, VL{VT("node"), modelView(v)})
+		}
+		vals = append(vals, v)
+	}
+	obs := emitCli(c, "listunixfs", VL{VN(uint64(r.Intn(2))), vals, views}, VL{}, VL{VN(1)}, true)
+	_ = obs
+	c.Count("listunixfs:trees")
+}
+
+// c19DebugCompile: car debug then car compile over a CARv1 of decodable blocks (a generated DAG)
+func c19DebugCompile(c *Ctx, r *RNG) {
+	g := genDag(r, 1+r.Intn(3), 1, false)
+	var blks []Blk
+	seen := map[string]bool{}
+	for _, i := range permIdx(r, len(g.nodes)) {
+		nd := g.nodes[i]
+		if seen[nd.c.KeyString()] && !r.Chance(30) { // sometimes the same section twice
+			continue
+		}
+		seen[nd.c.KeyString()] = true
+		blks = append(blks, Blk{nd.c, nd.data})
+	}
+	var a Arch
+	a.blks, a.roots, a.ver = blks, []cid.Cid{g.tops[0].c}, 1
+	if r.Chance(25) {
+		a.roots = append(a.roots, g.nodes[0].c)
+	}
+	a.payload = refPayload(a.roots, blks)
+	a.file = a.payload
+	emitCli(c, "debugcompile", VL{VN(uint64(r.Intn(2)))}, fvals(a), VL{a.desc()}, true)
+	c.Count("debugcompile:archives")
+	for k := 0; k < 2; k++ { // the same archive through a damaged patch: robustness only
+		emitCli(c, "compilebad", VL{VN(uint64(r.Intn(6))), VN(uint64(r.Intn(1 << 20)))}, fvals(a), VL{VN(1)}, true)
+	}
+}
+
 func permIdx(r *RNG, n int) []int {
 	p := make([]int, n)
 	for i := range p {
@@ -728,12 +822,13 @@ func permIdx(r *RNG, n int) []int {
 }
 
 // malformed stream: only model = implementation is compared (expect is empty)
-func c19Malformed(c *Ctx, r *RNG, a Arch) {
+func c19Malformed(c *Ctx, r *RNG, a Arch, kind int) {
 	if len(a.blks) == 0 {
 		return
 	}
 	var f []byte
-	switch r.Intn(3) {
+	corrupt := false
+	switch kind % 3 {
 	case 0: // cut somewhere after the CARv1 header
 		base := len(a.file) - len(a.payload)
 		if a.idxKind != 0 {
@@ -760,6 +855,7 @@ func c19Malformed(c *Ctx, r *RNG, a Arch) {
 		}
 		g[base+lay.dataStart[i]+r.Intn(lay.secEnd[i]-lay.dataStart[i])] ^= 0x01
 		f = g
+		corrupt = true
 		c.Count("malformed:hash-mismatch")
 	default: // null padding after the payload of a CARv1
 		if a.ver != 1 {
@@ -769,6 +865,10 @@ func c19Malformed(c *Ctx, r *RNG, a Arch) {
 		c.Count("malformed:null-padded-v1")
 	}
 	files := VL{VB(f)}
+	if corrupt {
+		emitCli(c, "list", VL{VN(0), VN(0), VN(1)}, files, VL{a.desc()}, true)
+		emitCli(c, "list", VL{VN(1), VN(0), VN(1)}, files, VL{a.desc()}, true)
+	}
 	emitCli(c, "list", VL{}, files, VL{}, false)
 	emitCli(c, "root", VL{}, files, VL{}, false)
 	emitCli(c, "inspect", VL{VN(1)}, files, VL{}, false)
@@ -832,6 +932,28 @@ func c19Examples(c *Ctx) {
 	emitCli(c, "filter", VL{VL{VB(b2.Cid.Bytes()), VB(bi.Cid.Bytes())}, VN(0), VN(2), VN(1)}, VL{VB(v2.file), VB(out0)}, VL{v2.desc(), v1.desc()}, true)
 	c.Count("examples:theorem-instance")
 	c19ExampleDag(c)
+	// round 6 (CliExamples.v ex_list_stdin_v1, ex_list_stdin_v2_refused, ex_ulist, ex_ulist_missing)
+	emitCli(c, "list", VL{VN(1), VN(0)}, fvals(v1), ex, true)
+	emitCli(c, "list", VL{VN(1), VN(0)}, fvals(v2), VL{v2.desc()}, true)
+	emitCli(c, "root", VL{VN(1)}, fvals(v1), ex, true)
+	emitCli(c, "root", VL{VN(1)}, fvals(v2), VL{v2.desc()}, true)
+	file := func(d string) Val { return VL{VT("f"), VB([]byte(d)), VN(0), VN(1), VN(0)} }
+	dir := func(ents ...Val) Val { return VL{VT("d"), VL(ents), VN(0), VN(0)} }
+	ent := func(n string, v Val) Val { return VL{VB([]byte(n)), v, VN(1)} }
+	t1 := dir(ent("a", file("1")), ent("d", dir(ent("b", VL{VT("l"), VB([]byte("a")), VN(0)}), ent("c", file("")))), ent("e", dir()))
+	rawRoot := file("raw root")
+	emitCli(c, "listunixfs", VL{VN(0), VL{rawRoot, t1}, VL{VL{VT("raw")}, VL{VT("node"), modelView(t1)}}}, VL{}, VL{VN(1)}, true)
+	t2 := dir(ent("a", file("")), ent("b", VL{VT("m"), VB([]byte("gone"))}), ent("c", file("")))
+	emitCli(c, "listunixfs", VL{VN(0), VL{t2}, VL{VL{VT("node"), modelView(t2)}}}, VL{}, VL{VN(1)}, true)
+	// the two defects fixed in round 6: an empty raw block through debug | compile (C19-compile-empty-raw-block),
+	// list --verbose over a dag-pb node without a Data field (C19-list-verbose-no-data-panic)
+	e0 := Blk{mkCid(1, 0x55, mh.SHA2_256, -1, []byte{}), []byte{}}
+	pb0 := Blk{mkCid(1, 0x70, mh.SHA2_256, -1, []byte{}), []byte{}}
+	w := Arch{roots: []cid.Cid{b1.Cid}, blks: []Blk{e0, b1, pb0}, ver: 1}
+	w.payload = refPayload(w.roots, w.blks)
+	w.file = w.payload
+	emitCli(c, "debugcompile", VL{}, fvals(w), VL{w.desc()}, true)
+	emitCli(c, "list", VL{VN(0), VN(1)}, fvals(w), VL{w.desc()}, true)
 }
 
 // c19ExampleDag: R = [X, M], X = [M], M = [L] (dag-cbor lists of links, sha2-256) with the depth-limited
@@ -885,7 +1007,7 @@ func c19ExampleDag(c *Ctx) {
 func init() {
 	register("c19", func(c *Ctx) {
 		c19Examples(c)
-		n := 32 * c.Scale
+		n := 28 * c.Scale
 		maxBlocks := 9 // buckets stay below sort.Sort's insertion-sort threshold (stable), see notes/design/C19.md
 		archs := make([]Arch, n)
 		for i := range archs {
@@ -895,7 +1017,7 @@ func init() {
 			r := c.R.Fork()
 			c19Archive(c, r, a, archs[(i+1)%n], archs[(i+2)%n])
 			if i%5 == 0 {
-				c19Malformed(c, r, a)
+				c19Malformed(c, r, a, 1+i/5) // every kind in turn, the hash mismatch first
 			}
 		}
 		for i := 0; i < 12*c.Scale; i++ {
@@ -906,6 +1028,12 @@ func init() {
 		}
 		for i := 0; i < 2*c.Scale; i++ {
 			c19OutIndep(c, c.R.Fork(), archs[i%n])
+		}
+		for i := 0; i < 8*c.Scale; i++ {
+			c19ListUnixfs(c, c.R.Fork())
+		}
+		for i := 0; i < 5*c.Scale; i++ {
+			c19DebugCompile(c, c.R.Fork())
 		}
 		if c.Thorough {
 			m := 12
